@@ -13,6 +13,18 @@ CLAIMS = {
             'The model is tied to /repo on every run by exhaustive small histories + random long ones.',
             'Trusted: Coq kernel/vm_compute, the Python harness, numpy/pandas container semantics (validated by the tie). '
             'All theorems closed under the global context.', 'DESIGN.md §5 C03'),
+    'C04': ('Coq theorems (invariant + induction over the event scan; lock-step simulation for monotonicity) about an executable model of the '
+            'fromevent/candidate_jump state machine + checked correspondence (exhaustive small histories, random long ones)',
+            'Proof: default_exact (scan of the change log = consecutive distinct visited sites), default_sound/complete (the spec is what the statement says), '
+            'strict_subset, scan_consistent and residence_monotone are theorems for all histories and all minimal-residence values.',
+            'Trusted: Coq kernel/vm_compute, harness, pandas iterrows/groupby order and Series aliasing (value semantics in the model; validated by the tie). '
+            'All theorems closed under the global context.', 'DESIGN.md §5 C04'),
+    'C05': ('Coq theorems (generic weighted counting over a partition by key) about a model of the fancy-index matrix assignment, counters and occupancy '
+            '+ checked correspondence on generated site sets / histories',
+            'Proof: matrix entry = number of moves (for in-range rows), matrix sum, empty diagonal, counter = aggregation of the matrix, counter total, '
+            'edge set = support, sum(pdist^2 * matrix) = sum over jumps of d^2, occupancy sum; the no-site folding of Transitions.matrix() is proved as a refutation (known finding D6).',
+            'Trusted: Coq kernel/vm_compute, harness (exact rational minimum-image distances for the diffusivity formula), pymatgen containers. Closed under the global context.',
+            'DESIGN.md §5 C05'),
 }
 PENDING_REASON = 'not yet claimed in this revision: model/tie under construction (see DESIGN.md §11 build order)'
 
